@@ -245,8 +245,8 @@ def check_wellformed(det, params, n, p, y, fitted=None):
     if "ilocs" not in y.columns:
         raise Violation("predict has no 'ilocs' column", columns=list(map(str, y.columns)))
     if det in ("PELT", "MovingWindow", "SeededBinarySegmentation"):
-        if str(y["ilocs"].dtype) != "int64":
-            raise Violation("changepoints are not int64", dtype=str(y["ilocs"].dtype))
+        if not np.issubdtype(y["ilocs"].dtype, np.integer):
+            raise Violation("changepoints are not integers", dtype=str(y["ilocs"].dtype))
         cpts = [int(v) for v in y["ilocs"].tolist()]
         if any(b <= a for a, b in zip(cpts[:-1], cpts[1:])):
             raise Violation("changepoints are not strictly increasing", changepoints=cpts)
@@ -269,7 +269,7 @@ def check_wellformed(det, params, n, p, y, fitted=None):
     arr = y["ilocs"].array
     if arr.closed != "left":
         raise Violation("anomaly intervals are not left-closed", closed=arr.closed)
-    if str(arr.left.dtype) != "int64" or str(arr.right.dtype) != "int64":
+    if not (np.issubdtype(arr.left.dtype, np.integer) and np.issubdtype(arr.right.dtype, np.integer)):
         raise Violation("anomaly interval bounds are not integers", dtype=str(arr.left.dtype))
     ev = [(int(a), int(b)) for a, b in zip(arr.left, arr.right)]
     if "labels" not in y.columns or [int(v) for v in y["labels"].tolist()] != list(range(1, K + 1)):
